@@ -15,7 +15,7 @@ EXPLANATION = (
     "client sends STOP_SENDING(H3_REQUEST_CANCELLED) for responses and trailers. The arithmetic inside len() is trusted.")
 # every anchor of these rules lives in the h3 crate: thorough tier repeats them on the feature-less build
 EXTRA_CONFIGS = ["h3-plain"]
-RULES = "C10-a size accounting (A4/A6); C10-b comparisons and limit provenance (A5/A4/A2); C10-c defaults and local-limit flow (A4/A11); C10-d outcomes (A3)"
+RULES = "C10-a size accounting (A4/A6); C10-b comparisons and limit provenance (A5/A4/A2); C10-c defaults and local-limit flow (A4/A11); C10-d outcomes (A3); shared through a proxy: C13-d under C10-c"
 
 Q = "h3::qpack::"
 WRITE = "h3::stream::write"
@@ -267,3 +267,7 @@ def run(ctx):
         ctx.check(bool(ps) and all(not p.has_call("handle_connection_error_on_stream") for p in ps), "C10-d", tr.key, "oversized trailers are not connection-fatal",
                   "HeaderTooBig trailers raise a connection error", "")
     ctx.assume("Vec/Cow len() report the byte lengths of name and value")
+    # the peer's limit is whatever its SETTINGS frame said - every supported identifier is stored, whatever its value (C13-d)
+    if not getattr(ctx, "nested", False):
+        from rules import C13 as _c13, shared as _sh
+        _c13.run(_sh.Proxy(ctx, ("C13-d",), "C10-c"))
